@@ -57,6 +57,8 @@ func (f *Finding) appliesTo(prop string) bool {
 }
 
 type checkRun struct {
+	bounded  []*BoundedResult
+	repo     string
 	prop     string
 	tier     string
 	P        *Program
@@ -125,7 +127,7 @@ func cmdCheck(args []string) int {
 		opts.Agree = 2
 	}
 	for _, f := range kf.Findings {
-		if f.Status == "open" {
+		if f.Status == "open" && f.Bounded == "" {
 			opts.Findings = append(opts.Findings, f)
 		}
 	}
@@ -139,7 +141,9 @@ func cmdCheck(args []string) int {
 	}
 	sort.Strings(roots)
 	if len(roots) == 0 {
-		return fail2("no contract carries this property")
+		if items, _ := loadBounded(filepath.Join(*verifDir, "bounded.json")); len(items) == 0 {
+			return fail2("no contract carries this property")
+		}
 	}
 	// closure over used contracts
 	pending := append([]string{}, roots...)
@@ -230,6 +234,17 @@ func cmdCheck(args []string) int {
 	}
 	lwg.Wait()
 	sort.Strings(cr.order)
+	// bounded stand-ins registered for this property (run against the real code through go test -overlay)
+	items, err := loadBounded(filepath.Join(*verifDir, "bounded.json"))
+	if err != nil {
+		return fail2("bounded.json: " + err.Error())
+	}
+	cr.repo = *repo
+	for _, it := range items {
+		if it.Property == prop {
+			cr.bounded = append(cr.bounded, runBounded(*repo, *verifDir, it, *tier))
+		}
+	}
 	return cr.report(evPath, t0, seed, *quiet, *verifDir)
 }
 
@@ -359,6 +374,41 @@ func (cr *checkRun) report(evPath string, t0 time.Time, seed int, quiet bool, ve
 		"samples":                  samples,
 		"undecided":                undecided,
 	}
+	var bnd []interface{}
+	nb := 0
+	for _, br := range cr.bounded {
+		ent := map[string]interface{}{"name": br.Item.Name, "what": br.Item.What, "bound": br.Item.Bound, "seconds": br.Seconds, "passed": br.OK, "labelled": "bounded stand-in (not a proof; not counted in discharged)"}
+		if br.Report != nil {
+			for _, k := range []string{"cases", "distinct_nontrivial", "samples", "max_players", "max_amount"} {
+				if v, ok := br.Report[k]; ok {
+					ent[k] = v
+				}
+			}
+		}
+		bnd = append(bnd, ent)
+		nb++
+		// known findings reproduced by the stand-in (listed in known_findings.json by id)
+		if br.Report != nil {
+			if kl, ok := br.Report["known_findings"].([]interface{}); ok {
+				for _, x := range kl {
+					xm, _ := x.(map[string]interface{})
+					for _, f := range cr.findings.Findings {
+						if f.Status == "open" && f.Bounded == br.Item.Name && f.ID == fmt.Sprint(xm["id"]) && f.appliesTo(prop) {
+							knownSeen = append(knownSeen, fmt.Sprintf("KNOWN-FINDING: property=%s %s [%s; reproduced by bounded stand-in %s on input %v: %v]", prop, f.What, f.ID, br.Item.Name, toJSON(xm["input"]), xm["message"]))
+						}
+					}
+				}
+			}
+		}
+		if br.Err != "" {
+			undecided = append(undecided, "bounded stand-in "+br.Item.Name+": "+br.Err+": "+truncate(br.Output, 300))
+		}
+	}
+	if nb > 0 {
+		cov["bounded"] = bnd
+		ev.Level = "other"
+		cov["explanation"] = "hybrid: the obligations listed under obligations/discharged are proved by contract-based deductive verification of the real code; the clauses no contract within reach could discharge are covered by the bounded stand-ins listed under 'bounded' (exhaustive small-scope runs of the real code against an oracle written from the statement) — bounded, not proved"
+	}
 	ev.Coverage = cov
 	code := 0
 	if len(undecided) > 0 {
@@ -380,7 +430,19 @@ func (cr *checkRun) report(evPath string, t0 time.Time, seed int, quiet bool, ve
 			fmt.Printf("VIOLATION property=%s replay=%s obligation=%s status=%s%s\n", prop, path, v.Obl.Name, v.Status, tail)
 		}
 	}
-	ev.Violations = len(violations)
+	for _, br := range cr.bounded {
+		if br.Report != nil && br.Report["failure"] != nil {
+			code = 1
+			os.MkdirAll(filepath.Join(verifDir, "replays"), 0o755)
+			path := filepath.Join(verifDir, "replays", safeName(prop+"-bounded-"+br.Item.Name)+".json")
+			writeJSON(path, map[string]interface{}{"property": prop, "kind": "bounded-stand-in", "name": br.Item.Name, "failing_input": br.Report["failure"],
+				"message": br.Report["message"], "replay_test": br.Item.ReplayRun, "pkg": br.Item.Pkg, "files": br.Item.Files,
+				"note": "failing input found by running the real code; replay with /verif/bin/replay <this file>"})
+			fmt.Printf("VIOLATION property=%s replay=%s bounded=%s message=%v\n", prop, path, br.Item.Name, br.Report["message"])
+			ev.Violations++
+		}
+	}
+	ev.Violations += len(violations)
 	ev.WallS = time.Since(t0).Seconds()
 	writeJSON(evPath, ev)
 	if !quiet {
@@ -435,4 +497,9 @@ func truncate(s string, n int) string {
 		return s[:n] + "…"
 	}
 	return s
+}
+
+func toJSON(v interface{}) string {
+	b, _ := json.Marshal(v)
+	return string(b)
 }
